@@ -73,7 +73,7 @@ PROPS["C08"] = {
     "level": "exploration",
     "technique": "property-based testing (rapidcheck): emitted layout compared with a reference aggregation/segmentation model",
     "rule": "cases = generated batches x DataContext (half of them after 1..3 earlier encode calls on the same encoder), lengths aimed at fit/no-fit boundaries of the empty and of the current "
-            "frame (weight 10/17); non-trivial when a length is within +-2 of such a boundary, the batch changes message type, "
+            "frame (weight 10/17); one case in six goes beyond the C07 domain with zero-length-payload packets (placed like a 16-byte message that is not written); non-trivial when a length is within +-2 of such a boundary, the batch changes message type, "
             "or a packet follows a last segment; distinct = distinct serialized cases",
     "assumptions": COMMON_ASSUMPTIONS + ["the property pins the layout uniquely, so equality with the reference model is not "
                                          "stronger than the statement; message-less frames are ignored here (C07)"],
@@ -144,7 +144,7 @@ PROPS["C17"] = {
     "technique": "stateful property-based testing (rapidcheck) + bounded exhaustive enumeration: pending-reassembly table (hook) vs reference reassembler after every frame",
     "rule": "cases = frame histories over up to 4 endpoints from the alphabet {unsegmented, first, matching/mismatching/orphan "
             "continuation, invalid message, TECMP, short buffer, header-only}: exhaustively all sequences up to length 3 (thorough 4) "
-            "over 22 symbols on two endpoints, random histories up to 60 (thorough 200) frames, long procedural runs (30k / 250k "
+            "over 22 symbols on two endpoints, random histories up to 60 (thorough 200) frames (one in 12 with segments of 20000..65535 bytes, accumulating beyond 65535), long procedural runs (30k / 250k "
             "frames, 6 or 600 endpoints); every history is followed by closing traffic; non-trivial when an abort / supersede / "
             "orphan / completion happens while another endpoint is pending; distinct = distinct serialized histories",
     "assumptions": COMMON_ASSUMPTIONS + ["Decoder::verifPending() (guarded hook) reports the real table",
@@ -180,7 +180,7 @@ PROPS["C18"] = {
 PROPS["C06"] = {
     "level": "fault_enumeration",
     "technique": "fault-injection property-based testing (rapidcheck) + exhaustive single/double fault enumeration on small streams; safety + bounded-recovery oracle",
-    "rule": "cases = (base stream of 1..3 endpoints x 3..8 (thorough ..12) messages, unsegmented or 2..5 segments, frames from the "
+    "rule": "cases = (base stream of 1..3 endpoints (plain ids, or a base endpoint plus endpoints a key / hash / comparison could confuse with it) x 3..8 (thorough ..12) messages, unsegmented or 2..5 segments, frames from the "
             "independent segmenter (3/4) or from the library's Encoder (1/4); fault sequence of 1..3 (thorough ..6) of drop / duplicate / "
             "swap / move / corrupt-version / corrupt-message-type); plus exhaustively every single fault at every position of 40 "
             "(thorough 120) fixed base streams of <=12 frames (thorough: every pair on the first 14 of them); non-trivial when a fault hits a frame "
@@ -204,7 +204,7 @@ PROPS["C06"] = {
 PROPS["C04"] = {
     "level": "exploration",
     "technique": "property-based testing (rapidcheck): decoder output vs an independent reference parse (frame walker + three-valued payload validators)",
-    "rule": "cases = (optional prior frame history, CMP frame with 0..5 (thorough ..8) unsegmented messages of every payload kind in the "
+    "rule": "cases = (optional prior frame history, CMP frame of any header message type incl. 0 with 0..5 (thorough ..8) unsegmented messages of every payload kind in the "
             "classes well-formed / inner length beyond the payload / shorter than its header / bus-error flag / slack, then truncated at "
             "any offset or zero-padded 1..64 bytes); non-trivial when at least one packet is returned and the frame holds >=2 payload "
             "kinds, or truncation removes messages, or a prior history exists, or a must-be-invalid payload is present; distinct = "
